@@ -14,6 +14,26 @@ fn main() {
         std::process::exit(2);
     }
     let id = args[1].as_str();
+    if id == "stages" {
+        // debugging aid: run every stage on a source file in-process
+        let src = std::fs::read_to_string(&args[2]).unwrap();
+        let t = std::time::Instant::now();
+        let r = props::stages::run_stages(&src);
+        println!("{r:?} in {:?}", t.elapsed());
+        match rooc::RoocParser::new(src.clone()).type_check(&vec![], &indexmap::IndexMap::new()) {
+            Ok(_) => println!("type_check: accepted"),
+            Err(e) => println!("type_check: rejected: {e}"),
+        }
+        match rooc::RoocParser::new(src.clone()).parse_and_transform(vec![], &indexmap::IndexMap::new()) {
+            Ok(m) => println!("model:\n{m}"),
+            Err(e) => println!("error: {e}"),
+        }
+        return;
+    }
+    if id == "c18-worker" {
+        props::c18::worker_main();
+        return;
+    }
     let mut tier = match std::env::var("VERIF_TIER").as_deref() {
         Ok("thorough") => Tier::Thorough,
         _ => Tier::Quick,
